@@ -98,7 +98,7 @@ fn repo_dir() -> String { std::fs::read_link(concat!(env!("CARGO_MANIFEST_DIR"),
 /// grammar-directed adversarial constructions
 fn adversarial(r: &mut Rng, i: u64) -> (String, String) {
     let x = |r: &mut Rng| r.pick(EXTREMES).to_string();
-    match i % 12 {
+    match i % 13 {
         0 => { // xref stream with extreme W / Index / Size
             let body = b"\x01\x00\x10\x00\x01\x00\x20\x00";
             let f = format!("%PDF-1.5\n1 0 obj\n<</Type/Catalog>>\nendobj\n2 0 obj\n<</Type/XRef/Size {}/W[{} {} {}]/Index[{} {}]/Root 1 0 R/Length {}>>\nstream\n", x(r), x(r), x(r), x(r), x(r), x(r), body.len());
@@ -180,6 +180,16 @@ fn adversarial(r: &mut Rng, i: u64) -> (String, String) {
             }
             let tl = r.usize(24);
             ("cmap-soup".into(), format!("M {} {}", hex_tok(s.as_bytes()), hex_tok(&r.bytes(tl)))) }
+        11 => { // search windows: tens of thousands of `%%EOF` / `startxref` / `%PDF-` markers, with and without one near the end
+            let marker: &[u8] = *r.pick(&[&b"%%EOF\n"[..], b"startxref\n1\n%%EOF\n", b"%PDF-1.4\n", b"endobj\n", b"xref\n"]);
+            let n = *r.pick(&[100usize, 5000, 20000, 60000, 150000, 300000]);
+            let mut f = b"%PDF-1.4\n1 0 obj\nnull\nendobj\n".to_vec();
+            for _ in 0..n { f.extend_from_slice(marker); }
+            // padding so that the last 512 / 1024 bytes hold no marker at all (or just one)
+            let pad = *r.pick(&[0usize, 100, 513, 600, 1025, 5000]);
+            f.extend(std::iter::repeat(*r.pick(&[b' ', b'\n', b'x'])).take(pad));
+            if r.chance(1, 3) { f.extend_from_slice(b"startxref\n9\n%%EOF"); }
+            ("marker-flood".into(), format!("{} {}", if r.chance(1, 3) { "I" } else { "L" }, hex_tok(&f))) }
         _ => { // startxref / header oddities
             let f = format!("{}%PDF-{}\n1 0 obj\nnull\nendobj\nxref\n0 2\n0000000000 65535 f \n0000000009 00000 n \ntrailer\n<</Size 2>>\nstartxref\n{}\n%%EOF{}", r.pick(&["", "junk", "%PDF-%PDF-"]), r.pick(&["1.4", "", "\u{e9}", "1.7\r"]), x(r), r.pick(&["", "\n", "%%EOF%%EOF%%EOF", " "]));
             ("startxref-extremes".into(), format!("L {}", hex_tok(f.as_bytes()))) }
